@@ -1,4 +1,5 @@
 import TeleportModel.Model.Lifecycle
+import TeleportModel.Model.ChainId
 import TeleportModel.Driver.Loop
 /- Line protocol of C18 (concrete ops written by harness/c18_test.go; see docs/C18.md). -/
 namespace TM.Driver.C18
@@ -113,6 +114,14 @@ def step (s : St) (line : String) : St × String :=
   | ["reset", ns] => ({ Lifecycle.init with now := ns.toNat?.getD 0 }, "ok")
   | ["reset", ns, selfHex] => ({ Lifecycle.init with now := ns.toNat?.getD 0, self := (nameOf selfHex).getD "" }, "ok")
   | ["noop"] => (s, "skip")
+  | ["chainid", idHex, rev] =>
+    -- IsRevisionFormat / ParseChainID / SetRevisionNumber of core/client/types/height.go on one chain id
+    match unhex idHex, rev.toNat? with
+    | some id, some r =>
+      let p := match ChainId.parseChainID id with | .ok n => toString n | .err _ => "err" | .panic _ => "panic"
+      let t := match ChainId.setRevisionNumber id r with | .ok b => hex b | .err _ => "err" | .panic _ => "panic"
+      (s, "fmt=" ++ (if ChainId.isRevisionFormat id then "1" else "0") ++ " parse=" ++ p ++ " set=" ++ t)
+    | _, _ => (s, "bad-op")
   | ["restart"] => ((Lifecycle.step s .restart).1, "ok D:" ++ dump s ++ " R:" ++ dumpRel s)
   | "dry" :: _ => (s, "dropped D:" ++ dump s ++ " R:" ++ dumpRel s)
   | ["time", ns] =>
